@@ -116,3 +116,53 @@ void h_userdata(void)
   __CPROVER_assert(!impl.sessionData.present, "U3 the user-data entry is removed");
   if (cleanup_due) { IORA_CANARY("h_userdata: cleanup"); }
 }
+
+/* ---- the WHOLE lambda, as one function: the same clauses plus the order across the parts ---- */
+void h_onclose(void)
+{
+  OC_SETUP
+  Impl_onClose(self, sid, reason);
+  IORA_CANARY("h_onclose: returns");
+  __CPROVER_assert(LOCKFREE(&impl), "LK5 no Transport lock is held when the handler returns");
+  __CPROVER_assert(impl.shuttingDown == impl0.shuttingDown && impl.activeConnects == impl0.activeConnects && impl.activeReceives == impl0.activeReceives && impl.activeFlushes == impl0.activeFlushes, "F1 teardown state untouched");
+  if (sid != W)
+  {
+    IORA_CANARY("h_onclose: other session");
+    __CPROVER_assert(impl.pendingConnects.present == impl0.pendingConnects.present && wop.done == wop0.done, "F3a pending connect of every other session untouched");
+    __CPROVER_assert(impl.observers.present == impl0.observers.present && impl.observers.wval.n == vec0.n && impl.observers.wval.w.id == vec0.w.id, "F3b observers of every other session untouched");
+    __CPROVER_assert(impl.sessionData.present == impl0.sessionData.present && impl.sessionData.wval.data == ud0.data, "F3c user data of every other session untouched");
+    __CPROVER_assert(impl.readModes.present == impl0.readModes.present && impl.readModes.wval == impl0.readModes.wval && SAME_BUF(wbuf, w0), "F3d read mode and buffer contents of every other session untouched");
+    __CPROVER_assert(impl.receiveBuffers.present == impl0.receiveBuffers.present || (!impl.receiveBuffers.present && w0.closed && !w0.hasData && w0.waiters == 0 && !w0.flushing),
+                     "GC1 the tombstone GC erases another session's entry only if it is closed, drained, with no parked waiter and no flush in progress");
+    return;
+  }
+  if (impl0.pendingConnects.present)
+  {
+    IORA_CANARY("h_onclose: pending connectSync");
+    __CPROVER_assert(G_global_calls == 0 && G_obs_calls == 0 && G_cleanup_calls == 0, "S1 a session connectSync never handed out: NO global callback, NO observer, NO cleanup");
+    __CPROVER_assert(wop.done && !wop.result.ok && wop.result.code == reason.code && !impl.pendingConnects.present && wop.cv.n_one == wop0.cv.n_one + 1, "S2 the waiter gets err(reason), entry erased, notified");
+    __CPROVER_assert(impl.observers.present == impl0.observers.present && impl.sessionData.present == impl0.sessionData.present && impl.receiveBuffers.present == impl0.receiveBuffers.present
+                     && impl.readModes.present == impl0.readModes.present && SAME_BUF(wbuf, w0), "S3 nothing else is touched (no tombstone, no cleanup)");
+    return;
+  }
+  OC_DEFS
+  __CPROVER_assert(G_global_calls == (impl0.onCloseCb.set ? 1u : 0u) && (!impl0.onCloseCb.set || (G_cb_sid == sid && G_cb_code == reason.code)), "G1 the global close callback runs exactly once (iff registered), with sid and reason");
+  __CPROVER_assert(G_obs_calls <= n0, "O0 at most one call per registered observer");
+  __CPROVER_assert(G_w_calls == ((w_live && vec0.w.cb_set) ? 1u : 0u), "O1 each still-registered observer (witness index GI) runs exactly once; nobody else");
+  __CPROVER_assert(!(G_w_calls == 1 && impl0.onCloseCb.set) || G_global_seq < G_w_seq, "O2 ... after the global close callback");
+  __CPROVER_assert(!impl.observers.present, "O3 the session's observer list is removed");
+  __CPROVER_assert(!(w_live && vec0.w.id == GOID) || !impl.observerToSession.present, "O4 ... and the reverse index of each of its observers");
+  __CPROVER_assert(!impl.observerToSession.present || impl0.observerToSession.present, "O5 the reverse index only shrinks");
+  __CPROVER_assert(G_cleanup_calls == (cleanup_due ? 1u : 0u) && (!cleanup_due || G_cleanup_data == ud0.data), "U1 the user-data cleanup runs exactly once (iff data and cleanup are registered), with the data");
+  __CPROVER_assert(!cleanup_due || ((!impl0.onCloseCb.set || G_global_seq < G_cleanup_seq) && (G_w_calls == 0 || G_w_seq < G_cleanup_seq) && G_cleanup_seq == G_seq), "U2 ... LAST: after the global callback and after every observer (highest sequence number)");
+  __CPROVER_assert(!impl.sessionData.present, "U3 the user-data entry is removed");
+  /* tombstone (C03) */
+  __CPROVER_assert(!impl.readModes.present && impl.receiveBuffers.present, "K1/K2 read mode forgotten; an entry (buffer or tombstone) exists afterwards - never erased by the GC of this very close");
+  __CPROVER_assert(impl0.receiveBuffers.present ? (impl.receiveBuffers.wval == &wbuf && wbuf.closed && wbuf.data.lo == w0.data.lo && wbuf.data.hi == w0.data.hi && wbuf.hasData == w0.hasData && wbuf.overflow == w0.overflow && wbuf.waiters == w0.waiters && wbuf.flushing == w0.flushing && wbuf.cv.n_all == w0.cv.n_all + 1)
+                                                 : (impl.receiveBuffers.wval == &fresh && fresh.closed && fresh.data.lo == fresh.data.hi && !fresh.hasData),
+                   "K3-K6 existing buffer: closed set, bytes kept, readers notified; none: closed empty tombstone");
+  if (impl0.onCloseCb.set) { IORA_CANARY("h_onclose: global callback"); }
+  if (G_w_calls == 1) { IORA_CANARY("h_onclose: witness observer called"); }
+  if (cleanup_due) { IORA_CANARY("h_onclose: cleanup"); }
+  if (G_obs_calls >= 2 && cleanup_due && impl0.onCloseCb.set) { IORA_CANARY("h_onclose: global, several observers, cleanup"); }
+}
